@@ -381,24 +381,22 @@ class Twins:
     @staticmethod
     def hook_delta_without_ai(delta):
         """for a command that itself names all refs (pack-refs, gc, push --mirror ..): the user's reference-transaction /
-        pre-push hook legitimately sees refs/notes/ai* in the USER's transaction; drop those lines and the transactions
-        that consisted of them only"""
-        out, block, had_ai = [], [], False
-
-        def flush():
-            nonlocal block, had_ai
-            if block and not (had_ai and len(block) == 1):
-                out.extend(block)
-            block, had_ai = [], False
+        pre-push hook legitimately sees refs/notes/ai* in the USER's transaction. Drop those lines, and drop the
+        reference-transaction blocks left without any ref line (a transaction that held only refs/notes/ai* in the proxy
+        twin corresponds to an empty or absent transaction in the plain twin)."""
+        blocks = []
         for ln in delta.split("\n"):
-            if re.match(r"^[a-z-]+( |$)", ln) and not re.match(r"^[0-9a-f]{40} ", ln):
-                flush()
-                block = [ln]
-            elif "refs/notes/ai" in ln:
-                had_ai = True
-            else:
-                block.append(ln)
-        flush()
+            if re.match(r"^[0-9a-f]{40} ", ln) and blocks:
+                if "refs/notes/ai" not in ln:
+                    blocks[-1][1].append(ln)
+            elif ln != "":
+                blocks.append((ln, []))
+        out = []
+        for head, lines in blocks:
+            if head.startswith("reference-transaction ") and not lines:
+                continue
+            out.append(head)
+            out.extend(lines)
         return "\n".join(out)
 
     def compare_u(self, carve=False):
@@ -429,7 +427,9 @@ class Twins:
         if self.trace_file and os.path.exists(self.trace_file):
             for ln in open(self.trace_file):
                 try:
-                    out.append(json.loads(ln)["args"])
+                    j = json.loads(ln)
+                    if isinstance(j.get("pid"), int) and isinstance(j.get("n"), int) and all(isinstance(a, str) for a in j["args"]):
+                        out.append(j["args"])
                 except Exception:
                     pass
         return out
